@@ -9,7 +9,7 @@
 //! Instantiations: `VectorClock`, `DenseNatMap<Id,u8>`, pairs of them side by side,
 //! `ActorModelState<UA, u8>` with 1 (thorough: 2) actors.
 use super::common::*;
-use crate::actor::{Actor, ActorModelState, Id, Network, Out, RandomChoices, Timers};
+use crate::actor::{Actor, ActorModelState, Envelope, Id, Network, Out, RandomChoices, Timers};
 use crate::util::{DenseNatMap, VectorClock};
 use std::sync::Arc;
 
@@ -263,6 +263,85 @@ fn c04_ams_random_choice_n1() {
     assert!(s1 != s2, "C04 states differing only in a pending random choice are different states (==)");
     assert!(!rec_of(&s1).same_bytes(&rec_of(&s2)), "C04 states differing only in a pending random choice feed different byte streams");
     kani::cover!(true, "random-choice identity reached");
+}
+
+/// A single-entry `HashableHashMap<u8,u8>`: the stream determines the entry (key AND value, each
+/// in its role): {k->v} and {k2->v2} are equal exactly when k == k2 and v == v2, equal maps hash
+/// identically and unequal ones - e.g. {1->2} vs {2->1}, {3->3} vs {4->4} - feed different streams.
+#[kani::proof]
+#[kani::unwind(4)]
+fn c04_t_hashmap_entry_roles() {
+    let (k, v, k2, v2): (u8, u8, u8, u8) = (kani::any(), kani::any(), kani::any(), kani::any());
+    // the two shapes a key/value mix-up shows in: swapped roles, or key == value on both sides
+    kani::assume((k2 == v && v2 == k) || (k == v && k2 == v2));
+    let mut x: HashableHashMap<u8, u8> = HashableHashMap::new();
+    x.insert(k, v);
+    let mut y: HashableHashMap<u8, u8> = HashableHashMap::new();
+    y.insert(k2, v2);
+    let want_eq = k == k2 && v == v2;
+    assert!((x == y) == want_eq, "C04 single-entry maps are equal exactly when key and value agree");
+    if want_eq {
+        assert!(rec_of(&x).same_calls(&rec_of(&y)), "C04 equal hashable maps hash identically");
+    } else {
+        assert!(!rec_of(&x).same_bytes(&rec_of(&y)), "C04 hashable maps whose entry differs in key or value (roles swapped, self-mapped) feed different byte streams");
+    }
+    kani::cover!(!want_eq && k2 == v && v2 == k, "entry with key and value swapped");
+    kani::cover!(!want_eq && k == v && k2 == v2, "two different self-mapped entries");
+}
+
+/// A set timer is part of the identity: two one-actor states that differ only in their timer sets
+/// ({} / {t1} / {t2}) are equal exactly when the sets are, and unequal ones feed different streams.
+#[kani::proof]
+#[kani::unwind(4)]
+fn c04_t_ams_timer_n1() {
+    let st: u8 = kani::any();
+    let h: u8 = kani::any();
+    let (has1, has2, t1, t2): (bool, bool, u8, u8) = (kani::any(), kani::any(), kani::any(), kani::any());
+    let mut s1 = state_n::<1>([st, 0, 0], [false, false, false], h);
+    let mut s2 = state_n::<1>([st, 0, 0], [false, false, false], h);
+    if has1 {
+        s1.timers_set[0].set(t1);
+    }
+    if has2 {
+        s2.timers_set[0].set(t2);
+    }
+    let same = has1 == has2 && (!has1 || t1 == t2);
+    assert!((s1 == s2) == same, "C04 states differing only in a set timer are different states (==)");
+    if same {
+        assert!(rec_of(&s1).same_calls(&rec_of(&s2)), "C04 equal actor-system states (same timers) hash identically");
+    } else {
+        assert!(!rec_of(&s1).same_bytes(&rec_of(&s2)), "C04 states differing only in a set timer feed different byte streams");
+    }
+    kani::cover!(has1 && has2 && t1 != t2, "two different timers set");
+    kani::cover!(has1 != has2, "timer set on one side only");
+}
+
+/// An in-flight message is part of the identity (duplicating network, one envelope 0 -> 0).
+#[kani::proof]
+#[kani::unwind(4)]
+fn c04_t_ams_inflight_n1() {
+    let st: u8 = kani::any();
+    let h: u8 = kani::any();
+    let (has1, has2, m1, m2): (bool, bool, u8, u8) = (kani::any(), kani::any(), kani::any(), kani::any());
+    let mut s1 = state_n::<1>([st, 0, 0], [false, false, false], h);
+    let mut s2 = state_n::<1>([st, 0, 0], [false, false, false], h);
+    s1.network = Network::new_unordered_duplicating([]);
+    s2.network = Network::new_unordered_duplicating([]);
+    if has1 {
+        s1.network.send(Envelope { src: Id::from(0usize), dst: Id::from(0usize), msg: m1 });
+    }
+    if has2 {
+        s2.network.send(Envelope { src: Id::from(0usize), dst: Id::from(0usize), msg: m2 });
+    }
+    let same = has1 == has2 && (!has1 || m1 == m2);
+    assert!((s1 == s2) == same, "C04 states differing only in an in-flight message are different states (==)");
+    if same {
+        assert!(rec_of(&s1).same_calls(&rec_of(&s2)), "C04 equal actor-system states (same network) hash identically");
+    } else {
+        assert!(!rec_of(&s1).same_bytes(&rec_of(&s2)), "C04 states differing only in an in-flight message feed different byte streams");
+    }
+    kani::cover!(has1 && has2 && m1 != m2, "two different messages in flight");
+    kani::cover!(has1 != has2, "message in flight on one side only");
 }
 
 /// Vacuity twin.
